@@ -29,6 +29,7 @@ K == [ SentOk1   |-> L("sent1", F, F, "none"),
        Elided    |-> L("elided", F, F, "none"),
        SymSig    |-> L("text", T, T, "none"),
        SymPlain  |-> L("text", T, F, "none"),
+       SymParen1 |-> L("text", T, F, "none"),     \* a symbol line that BEGINS with "(" (empty symbol)
        NoParen   |-> L("text", F, F, "none"),
        LocPc     |-> L("text", F, F, "ok"),
        LocParenPc|-> L("text", T, F, "ok"),
@@ -36,7 +37,7 @@ K == [ SentOk1   |-> L("sent1", F, F, "none"),
        LocHuge   |-> L("text", F, F, "huge"),
        LocBad    |-> L("text", F, F, "bad"),
        LocNoPc   |-> L("text", F, F, "none") ]
-\* NoParen and LocNoPc are the same abstract line (a text line with neither a
+\* SymPlain / SymParen1 and NoParen / LocNoPc are the same abstract lines (a text line with neither a
 \* paren nor a pc); they are kept apart for concretization only.
 KindNames == DOMAIN K \ {"LocNoPc"}
 
@@ -54,10 +55,25 @@ Spec == Init /\ [][Next]_vars
 (* reading.                                                                  *)
 
 \* ---- theorems checked on every reached report -------------------------
-Agree == LET w == WellFormed(hist) IN
+Agree == LET w == WellFormed(hist)  g == AsText(hist)  wt == WellFormed(g) IN
          /\ AWellFormed(ps, Len(hist)) = w
-         /\ w => AOut(ps) = Expected(hist)
+         /\ AWellFormedT(ps, Len(hist)) = wt
+         /\ w => (wt /\ Expected(g) = Expected(hist))
+         /\ wt => AOut(ps) = Expected(g)
          /\ ps = Run(P0, hist, 1)
+(* "the name is that of the same report without those lines": deleting the   *)
+(* later sentinel lines that stand before the running goroutine changes      *)
+(* neither well-formedness nor the frames (positions shift, flags do not).   *)
+RECURSIVE Pick(_, _, _)
+Pick(h, keep, i) == IF i > Len(h) THEN <<>>
+                    ELSE (IF i \in keep THEN <<h[i]>> ELSE <<>>) \o Pick(h, keep, i + 1)
+Del(h) == LET hd == Hdr(h) IN
+          Pick(h, {i \in 1..Len(h) : ~(i > 1 /\ h[i].s \in SentS /\ (hd = 0 \/ i < hd))}, 1)
+Traps(x) == [k \in 1..Len(x.frames) |-> x.frames[k].trap]
+RepIgnored == LET g == AsText(hist)  d == AsText(Del(hist)) IN
+              /\ WellFormed(g) = WellFormed(d)
+              /\ WellFormed(g) => /\ Expected(g).kind = Expected(d).kind
+                                  /\ Traps(Expected(g)) = Traps(Expected(d))
 CapOK == LET x == Expected(hist).frames  hd == Hdr(hist)  e == EndIdx(hist)  lib == Liberal(hist) IN
          /\ Len(x) <= Cap
          /\ \A k \in 1..Len(x) : IsPC(hist[x[k].i]) /\ x[k].i > hd /\ x[k].i < e /\ x[k].i \in lib
@@ -94,7 +110,7 @@ PrefixTrap == {<<"SentOk2", "NoParen", "HdrRun", "SymSig", "LocPc">>}
 
 NpcClass(n) == IF n <= Cap + 1 THEN n ELSE Cap + 2
 LastKind == IF names = <<>> THEN "-" ELSE names[Len(names)]
-ViewFull == <<ps.phase, ps.wf, ps.sent, ps.sympos, ps.curSig, ps.lastSig,
+ViewFull == <<ps.phase, ps.wf, ps.once, ps.sent, ps.sympos, ps.curSig, ps.lastSig,
               NpcClass(Len(ps.pcs)), LastKind, Len(names) = 1>>
 \* a report that has left the genuine format never comes back: its future
 \* depends on the phase and the line position only
